@@ -174,7 +174,7 @@ def scramble(rng, src):
 
 def crash_sig(item, stderr):
     """Signature of a process death: what died (stack overflow / signal / abort) + the shape of the culprit snippet."""
-    what = "stack-overflow" if "overflowed its stack" in stderr else ("asan" if "AddressSanitizer" in stderr else "abort")
+    what = "stack-overflow" if ("overflowed its stack" in stderr or "AddressSanitizer: stack-overflow" in stderr) else ("asan" if "AddressSanitizer" in stderr else "abort")
     m = re.search(r"\bdebug\((SELF_L|SELF_D)", item)
     if m and what == "stack-overflow":
         return "c07:crash:stack-overflow:debug-of-self-containing-value"
